@@ -1366,6 +1366,18 @@ def apply_law(r, ast, every=False):
             alts = n[1][0][2][1]
             rest = n[1][1:]
             cands.append((("grp", False, ("alt", [("seq", [b] + rest) for b in alts]), 0), "(?:r|s)t = rt|st", True))
+        if t == "alt" and len(n[1]) >= 2 and all(b == n[1][0] for b in n[1]) and not has_cap(n):
+            cands.append((n[1][0], "r|r = r (collapsed)", True))
+        if t == "grp" and not n[1] and n[2][0] not in ("alt",) and not has_cap(n):
+            cands.append((n[2] if n[2] != ("seq", []) else ("seq", []), "(?:r) = r (unwrapped)", True))
+        if t == "seq" and not has_cap(n):
+            for k in range(1, len(n[1])):
+                e = n[1][k]
+                if e[0] == "grp" and not e[1] and e[2][0] == "alt":
+                    rest = n[1][k + 1:]
+                    if rest:
+                        dist = ("grp", False, ("alt", [("seq", ([b] if b != ("seq", []) else []) + rest) for b in e[2][1]]), 0)
+                        cands.append((("seq", n[1][:k] + [dist]), "(?:r|s)t = rt|st (inside a sequence)", True))
         if t == "grp" and n[1]:
             # capturing → non-capturing when no back-reference exists at all and it is the last group (numbers stay)
             cands.append(None)
@@ -1418,23 +1430,43 @@ def c20_stress(ctx):
     cls = ("cls", False, [("c", "a"), ("c", "b")], None)
     bodies = [("alt", [A, ("seq", [A, B])]), ("seq", [rep(A, 1, None), rep(B, 0, 1)]), rep(A, 2, 2), rep(cls, 2, 2), ("seq", [A, A]),
               ("alt", [rep(A, 2, 2), rep(A, 2, 2)]), ("alt", [("seq", [A, B]), A]), rep(A, 1, 2), ("seq", [rep(A, 0, 1), B]), rep(("seq", [A, B]), 2, 2),
-              rep(A, 3, 3), ("alt", [B, ("seq", [B, A]), A])]
+              rep(A, 3, 3), ("alt", [B, ("seq", [B, A]), A]), ("alt", [A, ("seq", [A, A])]), ("alt", [("seq", [A, A]), A])]
     quants = [(2, 2), (1, 3), (2, 3), (0, None), (1, None), (0, 1), (0, 2), (3, 3), (1, 2)]
     tails = [[("lit", "c")], [], [A], [B, ("lit", "c")]]
-    pats = [(b, q, t, anch) for b in bodies for q in quants for t in tails for anch in (False, True)]
+    # what stands in front of the quantified group: nothing, or something that reaches it twice at one position
+    # (equal-length alternatives, a give-back prefix, an optional prefix)
+    pres = [[], [], [("grp", False, ("alt", [B, B]), 0)], [B], [("grp", False, ("alt", [B, ("seq", [B, B])]), 0), rep(B, 0, None)],
+            [("grp", False, ("alt", [rep(B, 1, None), ("seq", [])]), 0)]]
+    pats = [(pre, b, q, t, anch) for pre in pres for b in bodies for q in quants for t in tails for anch in (False, True)]
     gs = []
-    for b, (mn, mx), tail, anch in r.sample(pats, ctx.scale(170, len(pats))):
-        items = ([("bol",)] if anch else []) + [rep(("grp", False, b, 0), mn, mx)] + tail + ([("eol",)] if anch else [])
-        ast = ("seq", items)
+    # a repeat of a single character followed by a piece that matches only the empty string, then the same character
+    X = [A, cls]
+    noops = [rep(B, 0, 0), ("grp", False, ("seq", []), 0), rep(("bol",), 0, 1), ("grp", False, ("alt", [("seq", []), B]), 0), ("grp", False, ("alt", [B, ("seq", [])]), 0)]
+    extra = []
+    for x in X:
+        for (mn, mx) in [(0, None), (0, 1), (1, None), (1, 2)]:
+            for nz in noops:
+                for anch in (False, True):
+                    extra.append(("seq", ([("bol",)] if anch else []) + [rep(x, mn, mx), nz, A] + ([("eol",)] if anch else [])))
+    chosen = [("seq", ([("bol",)] if anch else []) + pre + [rep(("grp", False, b, 0), mn, mx)] + tail + ([("eol",)] if anch else []))
+              for pre, b, (mn, mx), tail, anch in r.sample(pats, ctx.scale(200, len(pats)))]
+    # always included: a min-0, finite-max group over an ambiguous body behind a prefix that reaches it twice at one position
+    amb = [("alt", [A, ("seq", [A, B])]), ("alt", [("seq", [A, B]), A]), ("alt", [A, ("seq", [A, A])]), ("alt", [("seq", [A, A]), A]), ("alt", [B, ("seq", [B, A]), A])]
+    twice = [("seq", [("bol",)] + pre + [rep(("grp", False, b, 0), 0, mx)] + tail + [("eol",)])
+             for pre in pres[2:] for b in amb for mx in (1, 2) for tail in ([], [("lit", "c")])]
+    for ast in chosen + (r.sample(extra, 40) if ctx.quick() else extra) + twice:
+        tail = [x for x in ast[1] if x == ("lit", "c")]
         p = render(ast)
         rw = apply_law(r, ast, every=True)
+        if ast in twice:
+            rw = [x for x in rw if "collapsed" in x[1] or "rt|st" in x[1] or "unwrapped" in x[1]] or rw
         alpha = "abc" if any(x == ("lit", "c") for x in tail) else "ab"
         pool = [s for s in rxlib.strings_upto(alpha, 6) if len(s) >= 2]
-        for ast2, law, ordered in (rw if not ctx.quick() else r.sample(rw, min(4, len(rw)))):
+        for ast2, law, ordered in (rw if (not ctx.quick() or ast in twice) else r.sample(rw, min(4, len(rw)))):
             p2 = render(ast2)
             fe = features(ast) | features(ast2)
             members = {derive(r, ast)[:9] for _ in range(ctx.scale(8, 40))}
-            members |= {"b" + m for m in list(members)[:2]} | {m + "a" for m in list(members)[:2]}
+            members |= {"b" + m for m in list(members)[:2]} | {m + "a" for m in list(members)} | {m[:-1] + "aa" + m[-1:] for m in list(members)[:3]}
             for s in r.sample(pool, ctx.scale(5, 40)) + sorted(members):
                 cs = [Case(p, "", "is_match", s), Case(p2, "", "is_match", s), Case(p, "", "analyze", s), Case(p2, "", "analyze", s)]
                 gs.append(Group(cs, {"features": fe, "input": s, "law": law, "ordered": ordered, "p2": p2}))
